@@ -201,6 +201,90 @@ structure AuthOpt where
   macOk : Bool
 deriving Repr, DecidableEq
 
+/-- A host address of a received SCION header as slayers hands it over: the 4-bit type/length
+    field (`SrcAddrType` / `DstAddrType`; `slayers.T4Ip = 0`, `T16Ip = 3`, `T4Svc = 4`, the
+    other values unassigned) and the raw bytes (`RawSrcAddr` / `RawDstAddr`; the parser cuts
+    4·(type mod 4 + 1) of them, i.e. 4, 8, 12 or 16). Both are network input. -/
+structure HostAddr where
+  type : Nat
+  raw : List Nat
+deriving Repr, DecidableEq
+
+/-- `slayers.T4Ip`, `slayers.T16Ip`, `slayers.T4Svc` (pinned against Gen in Props/C05) -/
+def t4Ip : Nat := 0
+def t16Ip : Nat := 3
+def t4Svc : Nat := 4
+
+/-- an IPv4 address as it sits in a SCION header -/
+def HostAddr.v4 (a b c d : Nat) : HostAddr := ⟨t4Ip, [a, b, c, d]⟩
+
+/-- the twelve bytes in front of the IPv4 address in an IPv4-mapped IPv6 address (`::ffff:a.b.c.d`) -/
+def v4mappedPrefix : List Nat := [0, 0, 0, 0, 0, 0, 0, 0, 0, 0, 255, 255]
+
+/-- `netip.AddrFromSlice(b)` followed by `Unmap()`, as the canonical byte list of the address:
+    `none` when the slice has neither 4 nor 16 bytes (AddrFromSlice's `ok = false`); the last
+    four bytes for an IPv4-mapped IPv6 address; the bytes themselves otherwise. Two slices
+    give the same `some` value iff the unmapped addresses are equal (`netip.Addr.Compare = 0`,
+    `==`: no zones arise from slices). -/
+def unmapIP (b : List Nat) : Option (List Nat) :=
+  if b.length = 4 then some b
+  else if b.length = 16 then (if b.take 12 = v4mappedPrefix then some (b.drop 12) else some b)
+  else none
+
+/-- outcome of the unrepaired `compareIPs(x, y) == 0` -/
+inductive IPCmp where
+  | same | differ | panic
+deriving Repr, DecidableEq
+
+/-- `compareIPs` before the `fix:` commit (client-side twin of F4a): it panicked
+    ("unexpected IP address byte slice") when either slice was no 4- or 16-byte slice — and
+    the first argument is `RawSrcAddr` / `RawDstAddr` of a received packet. The address type
+    was not looked at. -/
+def compareIPsOld (x y : List Nat) : IPCmp :=
+  match unmapIP x, unmapIP y with
+  | some a, some b => if a = b then .same else .differ
+  | _, _ => .panic
+
+/-- `equalsIP(addrType, rawAddr, ip)` (repaired): the received host address is an IP address
+    (type `T4Ip` or `T16Ip`) and equals `ip` up to IPv4-mapping; anything else — service
+    address, unassigned type, 8 or 12 bytes — is different from every IP address. -/
+def equalsIP (h : HostAddr) (ip : List Nat) : Bool :=
+  (h.type == t4Ip || h.type == t16Ip) &&
+    match unmapIP h.raw, unmapIP ip with
+    | some a, some b => a == b
+    | _, _ => false
+
+/-- Where the NTS-protected request goes (client_ip.go / client_scion.go, the glue behind
+    `FetchData`): `remoteAddr.IP = net.ParseIP(ntskeData.Server)`, `remoteAddr.Port =
+    int(ntskeData.Port)`, then the 4-byte form of the address when it has one. `parsed` is the
+    result of `net.ParseIP` on the server named in the key exchange — an oracle input: the 16
+    bytes of an IP literal, or `none` (Go's nil) for a host name, a zoned literal, the empty
+    string, garbage. Result: the one (host, port) a request may be sent to (over SCION: the
+    destination host and UDP port of the SCION header, and the underlay destination when the
+    server is in the client's AS), or `none`: no datagram leaves and the call fails — the write to
+    an address without IP fails (IP client), `errUnexpectedAddrType` (SCION client, as repaired).
+    `held` is what the caller's long-lived address object holds before the call (the configured
+    server, or what an earlier exchange named): both fields are overwritten unconditionally. -/
+def ntsDestination (held : List Nat × Nat) (parsed : Option (List Nat)) (port : Nat) :
+    Option (List Nat × Nat) :=
+  let _ := held
+  match parsed with
+  | none => none
+  | some ip => (unmapIP ip).map fun a => (a, port)
+
+/-- outcome of the glue for the SCION client before the `fix:` commit: a server name that is no
+    IP literal left `remoteAddr.Host.IP == nil`, and `netip.AddrFromSlice(nil)` a few lines on
+    ended in `panic(errUnexpectedAddrType)` -/
+inductive NtsDestOld where
+  | panic
+  | dest (d : Option (List Nat × Nat))
+deriving Repr, DecidableEq
+
+def ntsDestinationSCIONOld (parsed : Option (List Nat)) (port : Nat) : NtsDestOld :=
+  match parsed with
+  | none => .panic
+  | some ip => .dest ((unmapIP ip).map fun a => (a, port))
+
 /-- A datagram as parsed by gopacket/slayers (the parse itself is outside the model):
     `decoded` = the layer types `DecodeLayers` reports, in order. -/
 structure ScionDgram where
@@ -209,23 +293,41 @@ structure ScionDgram where
   bufLen : Nat
   udpLength : Nat
   srcIA : Nat
-  srcHost : Nat
+  srcHost : HostAddr
   dstIA : Nat
-  dstHost : Nat
+  dstHost : HostAddr
   /-- E2E timestamp option present and parsed by `TimestampFromOOBData` (F10: network supplied) -/
   tsOpt : Option Int
   authOpt : Option AuthOpt
   payload : Payload
 deriving Repr, DecidableEq
 
-/-- addresses of the SCION exchange and whether a DRKey host-host key was fetched
-    (`authKey != nil`: `Auth.Enabled` and the fetch succeeded) -/
+/-- addresses of the SCION exchange — `remoteAddr.IA`, the bytes of `remoteAddr.Host.IP`
+    (4 bytes whenever the address has a 4-byte form: the code applies `To4()`), `localAddr.IA`,
+    the bytes of `localAddr.Host.IP` (4 or 16, as the caller passed them) — and whether a DRKey
+    host-host key was fetched (`authKey != nil`: `Auth.Enabled` and the fetch succeeded) -/
 structure ScionCtx where
   remoteIA : Nat
-  remoteHost : Nat
+  remoteHost : List Nat
   localIA : Nat
-  localHost : Nat
+  localHost : List Nat
   keyAvailable : Bool
+
+/-- `validSrc && validDst` as repaired; `some` = never a panic -/
+def addrValid (sc : ScionCtx) (d : ScionDgram) : Bool :=
+  (d.srcIA == sc.remoteIA && equalsIP d.srcHost sc.remoteHost) &&
+  (d.dstIA == sc.localIA && equalsIP d.dstHost sc.localHost)
+
+def addrCheck (sc : ScionCtx) (d : ScionDgram) : Option Bool := some (addrValid sc d)
+
+/-- `validSrc`, then `validDst`, before the `fix:` commit: `compareIPs` is reached only behind
+    the ISD-AS comparison (`&&`), the source test runs first; `none` = panic. -/
+def addrCheckOld (sc : ScionCtx) (d : ScionDgram) : Option Bool :=
+  let src := if d.srcIA == sc.remoteIA then compareIPsOld d.srcHost.raw sc.remoteHost else .differ
+  if src = .panic then none else
+  let dst := if d.dstIA == sc.localIA then compareIPsOld d.dstHost.raw sc.localHost else .differ
+  if dst = .panic then none else
+  some (src = .same && dst = .same)
 
 def lastLayer (l : List Layer) : Option Layer := l.getLast?
 def secondLast (l : List Layer) : Option Layer := l.dropLast.getLast?
@@ -249,17 +351,20 @@ def scionRxTimeOld (d : ScionDgram) (_cTx1 cRx : Int) : Int :=
 /-- client_scion.go, loop body after a successful read with `flags == 0`; `rxTime` is
     `scionRxTime` (current code) or `scionRxTimeOld`; `malformed` is what an authenticator
     option whose data is not 28 bytes long leads to: as repaired an authentication failure
-    (`.skip .auth`), before the `fix:` commit a panic inside `PacketAuthOptMetadata`. -/
+    (`.skip .auth`), before the `fix:` commit a panic inside `PacketAuthOptMetadata`; `addr` is
+    the source/destination test: `addrCheck` (repaired, total) or `addrCheckOld` (`none` = the
+    panic of `compareIPs`). -/
 def classifySCIONWith (rxTime : ScionDgram → Int → Int → Int)
     (cfg : Cfg) (sc : ScionCtx) (prev : Prev) (req : Req) (cTx1 cRx : Int)
-    (d : ScionDgram) (malformed : Step := .skip .auth) : Step :=
+    (d : ScionDgram) (malformed : Step := .skip .auth)
+    (addr : ScionCtx → ScionDgram → Option Bool := addrCheck) : Step :=
   if !d.decodeOk then .skip .layers
   else if !(d.decoded.length ≥ 2 && (lastLayer d.decoded == some .udp || lastLayer d.decoded == some .scmp)) then
     .skip .unexpected
   else if lastLayer d.decoded == some .scmp then .skip .unexpected
   else if d.bufLen < d.udpLength then .skip .unexpected
-  else if !((d.srcIA == sc.remoteIA && d.srcHost == sc.remoteHost) &&
-            (d.dstIA == sc.localIA && d.dstHost == sc.localHost)) then .skip .unexpected
+  else if addr sc d == none then .panic
+  else if addr sc d != some true then .skip .unexpected
   else
     let e2e := d.decoded.length ≥ 3 && secondLast d.decoded == some .e2e
     let next := ntpStage cfg prev req cTx1 (rxTime d cTx1 cRx) d.payload
@@ -281,6 +386,11 @@ def classifySCIONOld (cfg : Cfg) (sc : ScionCtx) (prev : Prev) (req : Req) (cTx1
     of F4b): option data of a length other than 28 made `PacketAuthOptMetadata` panic -/
 def classifySCIONAuthOld (cfg : Cfg) (sc : ScionCtx) (prev : Prev) (req : Req) (cTx1 cRx : Int) (d : ScionDgram) : Step :=
   classifySCIONWith scionRxTime cfg sc prev req cTx1 cRx d .panic
+
+/-- the code before the `fix:` commit for the address comparison (client-side twin of F4a):
+    a received host address of 8 or 12 bytes made `compareIPs` panic -/
+def classifySCIONAddrOld (cfg : Cfg) (sc : ScionCtx) (prev : Prev) (req : Req) (cTx1 cRx : Int) (d : ScionDgram) : Step :=
+  classifySCIONWith scionRxTime cfg sc prev req cTx1 cRx d (.skip .auth) addrCheckOld
 
 /-- what the socket delivers to one loop iteration -/
 inductive Event (D : Type) where
